@@ -197,8 +197,9 @@ mod protected {
                 where
                     E: Error,
                 {
-                    Ok(HeapBytes::from_slice_into_locked(v)
-                        .expect("couldn't copy slice into locked bytes"))
+                    // a refused lock is an error of the decoder, not a panic
+                    HeapBytes::from_slice_into_locked(v)
+                        .map_err(|e| Error::custom(format!("{:?}", e)))
                 }
             }
 
@@ -251,8 +252,9 @@ mod protected {
                     if v.len() != LENGTH {
                         Err(Error::invalid_length(v.len(), &stringify!(LENGTH)))
                     } else {
-                        Ok(HeapByteArray::<LENGTH>::from_slice_into_locked(v)
-                            .expect("couldn't copy slice into locked bytes"))
+                        // a refused lock is an error of the decoder, not a panic
+                        HeapByteArray::<LENGTH>::from_slice_into_locked(v)
+                            .map_err(|e| Error::custom(format!("{:?}", e)))
                     }
                 }
             }
